@@ -1,0 +1,8 @@
+//go:build verif
+
+package kv
+
+// VerifC01Compacting reports whether the family has a background compaction job that was started
+// (compact() won the CAS on f.compacting) and has not finished yet. Verification hook (C01, close vs.
+// background jobs): read-only, no production code path calls it.
+func VerifC01Compacting(f Family) bool { return f.(*family).compacting.Load() }
